@@ -171,6 +171,12 @@ def generate(tier, seed, work, stats):
     for c in random_dfas(1200 if tier == "quick" else 20000, seed + 7):
         cases.append(dict(c, spool="merged", family="random-dfa-merged-names"))
     cases += twin_dfas(1500 if tier == "quick" else 20000, seed + 8)
+    # the same DFA built twice with the calls in a different order, over symbols whose hashes collide (-1, -2)
+    rnd = random.Random(seed + 9)
+    for c in random_dfas(800 if tier == "quick" else 10000, seed + 9):
+        other = list(c["callsA"][1:])
+        rnd.shuffle(other)
+        cases.append(dict(c, callsB=[c["callsA"][0]] + other, ypool="neg", family="random-dfa-reordered-negative-symbols"))
     # step-level conformance of the Hopcroft refinement (TraceHopcroft): spec-generated DFAs and dense random ones
     states = core.tlc_dump("FAGen", c01.gen_cfg("dfa", 3, 4, 0, invariants=False, maxs=1, maxf=2), work, stats=stats, name="FAGen-dfa-q3-t4-steps")
     for i, st in enumerate(c01.sample(states, 8 if tier == "quick" else 1, seed)):
